@@ -109,6 +109,7 @@ type Case struct {
 	Fam      string    `json:"fam,omitempty"` // "" static resolution | "dyn" events through the real handlers
 	Dyn      *DynSpec  `json:"dyn,omitempty"`
 	Res      *ResSpec  `json:"res,omitempty"`
+	APIFail  []int     `json:"api_fail,omitempty"` // dyn: backends whose NGINX Plus API calls fail during the events
 	Class    string    `json:"class"`
 	Plus     bool      `json:"plus"`
 	Resolver bool      `json:"resolver"`
